@@ -193,7 +193,8 @@ LEVEL_TEXT = ("Theorem about the mirrored model, every fan-in-limited circuit L 
               "Theorems for all circuits and all lists: the four checkers are sound for the clauses stated over paths (C17_checkers_sound); "
               "they decide the property per run on what the implementation returned (translation validation), which together with the set "
               "comparison model = implementation ties the theorems to the code; the order of the implementation's own list is judged only "
-              "this way. The super-circuit clause is oracle-level (fill_blackbox + exhaustive evaluation). Constants of the source are "
+              "this way; the hypotheses on L are decided per run (wf_limb, proved sound) and shape, independence and cover transfer to any list with "
+              "the model's members (C17_agreement_transfers). The super-circuit clause is oracle-level (fill_blackbox + exhaustive evaluation). Constants of the source are "
               "regenerated on every run by a fail-closed plug-in (C17_tables_ok).")
 LEVEL_NOTE = ("The model's searches and queues run on fuel and their results are certificate-checked inside the model (closure of every "
               "searched set, closure/route/depth of every grown set, distinct roots, frontier exhausted); the model has no value (OutOfFuel) if a "
